@@ -36,6 +36,8 @@ def lock_id(mod, f, call):
             name = o[1]
         m = name or ""
         m = m.replace(".gomp_critical_user_", "").replace(".var", "")
+        if m == "STACK_LOCK":
+            m = "stack.lock"      # same logical lock as the pthread build's stack.lock mutex
         return (kind, m or "?")
     return None
 
